@@ -41,8 +41,9 @@ struct Dev {
     ncalls: Cell<u64>,
     faults: HashSet<u64>,
     log: RefCell<Vec<Call>>,
-    writes: RefCell<Vec<(u32, [u8; 512])>>,
+    writes: RefCell<Vec<(u64, u32, [u8; 512])>>,
     keep_writes: bool,
+    cur_op: Cell<u64>,
 }
 impl std::fmt::Debug for Dev {
     fn fmt(&self, f: &mut std::fmt::Formatter) -> std::fmt::Result {
@@ -81,7 +82,7 @@ impl BlockDevice for &Dev {
             self.blocks.borrow_mut().insert(idx, b.contents);
             self.log.borrow_mut().push(Call::W(idx, hash_bytes(&b.contents)));
             if self.keep_writes {
-                self.writes.borrow_mut().push((idx, b.contents));
+                self.writes.borrow_mut().push((self.cur_op.get(), idx, b.contents));
             }
         }
         Ok(())
@@ -321,6 +322,7 @@ fn run<'a, const D: usize, const F: usize, const V: usize>(dev: &'a Dev, clock: 
             optoks = &optoks[..optoks.len() - 2];
         }
         dev.log.borrow_mut().clear();
+        dev.cur_op.set(n);
         if optoks[0] == "remount" {
             drop(vm);
             vm = VolumeManager::new_with_limits(dev, clock, optoks[1].parse().unwrap());
@@ -329,6 +331,8 @@ fn run<'a, const D: usize, const F: usize, const V: usize>(dev: &'a Dev, clock: 
             let r = catch_unwind(AssertUnwindSafe(|| exec(&vm, &slots, optoks)));
             match r {
                 Ok((res, cbs, handle)) => {
+                    // callbacks of a call that ends in an error are not part of the canonical trace
+                    let cbs = if res.starts_with("ok") { cbs } else { Vec::new() };
                     for c in cbs {
                         writeln!(out, "CB {} {}", n, c).unwrap();
                     }
@@ -417,6 +421,7 @@ fn main() {
         log: RefCell::new(vec![]),
         writes: RefCell::new(vec![]),
         keep_writes: writes_path.is_some(),
+        cur_op: Cell::new(0),
     };
     let clock = Clock { k: Cell::new(0) };
     let stdout = std::io::stdout();
@@ -441,8 +446,8 @@ fn main() {
     writeln!(out, "IMG {} {}", items.len(), h).unwrap();
     if let Some(p) = writes_path {
         let mut f = std::io::BufWriter::new(std::fs::File::create(p).unwrap());
-        for (idx, blk) in dev.writes.borrow().iter() {
-            writeln!(f, "{} {}", idx, hex(blk)).unwrap();
+        for (n, idx, blk) in dev.writes.borrow().iter() {
+            writeln!(f, "{} {} {}", n, idx, hex(blk)).unwrap();
         }
     }
     if let Some(p) = final_path {
